@@ -32,14 +32,41 @@ import (
 type c06StubImporter struct{ pkgs map[string]*types.Package }
 
 func (s c06StubImporter) Import(path string) (*types.Package, error) {
-	if p, ok := s.pkgs[path]; ok {
+	if p, ok := s.pkgs[path]; ok && p != nil {
 		return p, nil
 	}
 	name := path[strings.LastIndex(path, "/")+1:]
 	p := types.NewPackage(path, name)
+	if path == "net/url" {
+		c06DeclareURL(p)
+	}
 	p.MarkComplete()
 	s.pkgs[path] = p
 	return p, nil
+}
+
+// c06DeclareURL gives the stub of net/url its one struct the route package exposes everywhere (Target.URL,
+// Target.RedirectURL): with the field types known, `t.URL.Host` handed to a function is a string value, not a
+// reference into the table.
+func c06DeclareURL(p *types.Package) {
+	str := types.Typ[types.String]
+	boolT := types.Typ[types.Bool]
+	ui := types.NewNamed(types.NewTypeName(token.NoPos, p, "Userinfo", nil), types.NewStruct(nil, nil), nil)
+	p.Scope().Insert(ui.Obj())
+	var fields []*types.Var
+	for _, f := range []string{"Scheme", "Opaque"} {
+		fields = append(fields, types.NewField(token.NoPos, p, f, str, false))
+	}
+	fields = append(fields, types.NewField(token.NoPos, p, "User", types.NewPointer(ui), false))
+	for _, f := range []string{"Host", "Path", "RawPath"} {
+		fields = append(fields, types.NewField(token.NoPos, p, f, str, false))
+	}
+	fields = append(fields, types.NewField(token.NoPos, p, "OmitHost", boolT, false), types.NewField(token.NoPos, p, "ForceQuery", boolT, false))
+	for _, f := range []string{"RawQuery", "Fragment", "RawFragment"} {
+		fields = append(fields, types.NewField(token.NoPos, p, f, str, false))
+	}
+	u := types.NewNamed(types.NewTypeName(token.NoPos, p, "URL", nil), types.NewStruct(fields, nil), nil)
+	p.Scope().Insert(u.Obj())
 }
 
 var _ = importer.Default
@@ -56,6 +83,9 @@ type c06 struct {
 	alias map[types.Object]string
 	// lockedHelpers: unexported helpers that run only inside GlobCache.Get's critical section
 	lockedHelpers map[types.Object]bool
+	// routePkg: when another package is analysed (external writes), the type-checked package route: its named
+	// types count as shared memory there too
+	routePkg *types.Package
 	// paramAlias: parameters of in-package functions that receive, at some call site of the analysed reach, a
 	// reference into shared memory (`promote(rules, i)` with `rules := t.accessRules[tag]`): inside the callee the
 	// parameter denotes that memory. Conservative: one shared call site makes the parameter shared.
@@ -75,7 +105,11 @@ func c06FuncName(fd *ast.FuncDecl) string {
 	return fd.Name.Name
 }
 
-func (c *c06) load(dir string) bool {
+func (c *c06) load(dir string) bool { return c.loadWith(dir, nil) }
+
+// loadWith type-checks a package directory; `known` are packages served to its imports as they are (the checked
+// package route, so that route.Target and its fields resolve in the packages that use it).
+func (c *c06) loadWith(dir string, known map[string]*types.Package) bool {
 	files := c.x.files(dir)
 	if len(files) == 0 {
 		return false
@@ -86,8 +120,16 @@ func (c *c06) load(dir string) bool {
 		Uses:       map[*ast.Ident]types.Object{},
 		Selections: map[*ast.SelectorExpr]*types.Selection{},
 	}
-	conf := types.Config{Importer: c06StubImporter{map[string]*types.Package{}}, Error: func(error) {}, DisableUnusedImportCheck: true}
-	c.pkg, _ = conf.Check("github.com/fabiolb/fabio/"+dir, c.x.fset, files, c.info)
+	pkgs := map[string]*types.Package{}
+	for k, v := range known {
+		pkgs[k] = v
+	}
+	conf := types.Config{Importer: c06StubImporter{pkgs}, Error: func(error) {}, DisableUnusedImportCheck: true}
+	path := "github.com/fabiolb/fabio/" + dir
+	if dir == "" {
+		path = "github.com/fabiolb/fabio"
+	}
+	c.pkg, _ = conf.Check(path, c.x.fset, files, c.info)
 	c.funcs = map[types.Object]*ast.FuncDecl{}
 	for _, f := range files {
 		for _, d := range f.Decls {
@@ -128,7 +170,7 @@ func (c *c06) namedOf(t types.Type) string {
 		}
 		t = p.Elem()
 	}
-	if n, ok := t.(*types.Named); ok && n.Obj().Pkg() == c.pkg {
+	if n, ok := t.(*types.Named); ok && n.Obj().Pkg() != nil && (n.Obj().Pkg() == c.pkg || n.Obj().Pkg() == c.routePkg) {
 		return n.Obj().Name()
 	}
 	return ""
@@ -213,6 +255,9 @@ func (c *c06) describe(e ast.Expr) string {
 // varKind names a package-level variable by what it is — its declared type, or the callee of its initialiser —
 // so that renaming it does not change a fact ("var:sync.Once", "var:rand.New()").
 func (c *c06) varKind(vr *types.Var) string {
+	if c.routePkg != nil {
+		return vr.Name()
+	}
 	for _, f := range c.x.files("route") {
 		for _, d := range f.Decls {
 			gd, ok := d.(*ast.GenDecl)
@@ -1016,6 +1061,93 @@ func (c *c06) externalMethodRoots() []types.Object {
 	return out
 }
 
+
+// externalWrites: writes to memory of package route's types (Table, Route, Target, GlobCache, …) from the OTHER
+// packages of the repository that import it — assignments, ++/--, delete, atomic ops, non-read-only method calls on
+// receivers rooted in such memory, foreign mutating calls — in every function of those packages (no reach
+// computation: whatever they do to a table they did not build is done to a published one). Each package is
+// type-checked with the checked package route served to its imports, so route.Target's fields resolve there.
+func (c *c06) externalWrites() []string {
+	var out []string
+	seenW := map[string]bool{}
+	var dirs []string
+	filepath.WalkDir(c.x.repo, func(p string, d os.DirEntry, err error) error {
+		if err != nil || !d.IsDir() {
+			return nil
+		}
+		b := d.Name()
+		if p != c.x.repo && (strings.HasPrefix(b, ".") || strings.HasPrefix(b, "_") || b == "vendor" || b == "docs" || b == "demo" || b == "testdata") {
+			return filepath.SkipDir
+		}
+		rel, _ := filepath.Rel(c.x.repo, p)
+		if rel == "." {
+			rel = ""
+		}
+		if rel != "route" {
+			dirs = append(dirs, rel)
+		}
+		return nil
+	})
+	sort.Strings(dirs)
+	for _, dir := range dirs {
+		ents, _ := os.ReadDir(filepath.Join(c.x.repo, dir))
+		hasGo := false
+		for _, e := range ents {
+			if !e.IsDir() && strings.HasSuffix(e.Name(), ".go") && !strings.HasSuffix(e.Name(), "_test.go") && !strings.HasPrefix(e.Name(), "verif_") {
+				hasGo = true
+			}
+		}
+		if !hasGo {
+			continue
+		}
+		imports := false
+		for _, f := range c.x.files(dir) {
+			for _, im := range f.Imports {
+				if strings.Trim(im.Path.Value, `"`) == "github.com/fabiolb/fabio/route" {
+					imports = true
+				}
+			}
+		}
+		if !imports {
+			continue
+		}
+		c2 := &c06{x: c.x, routePkg: c.pkg, lockedHelpers: map[types.Object]bool{}}
+		if !c2.loadWith(dir, map[string]*types.Package{"github.com/fabiolb/fabio/route": c.pkg}) {
+			continue
+		}
+		var order []types.Object
+		for o := range c2.funcs {
+			order = append(order, o)
+		}
+		sort.Slice(order, func(i, j int) bool { return c2.funcs[order[i]].Pos() < c2.funcs[order[j]].Pos() })
+		c2.bindParams(order)
+		for _, o := range order {
+			for _, w := range c2.writes(c2.funcs[o], false) {
+				if w.kind == "copy" {
+					continue
+				}
+				isRoute := false
+				for _, pre := range []string{"Table", "Route", "Target", "GlobCache", "*Table", "*Route", "*Target", "*GlobCache"} {
+					if strings.HasPrefix(w.what, pre+".") || strings.HasPrefix(w.what, pre+"[") || w.what == pre ||
+						strings.Contains(w.what, "("+pre+".") || strings.Contains(w.what, "("+pre+"[") {
+						isRoute = true
+					}
+				}
+				if !isRoute {
+					continue
+				}
+				k := w.kind + " " + w.what
+				if !seenW[k] {
+					seenW[k] = true
+					out = append(out, k)
+				}
+			}
+		}
+	}
+	sort.Strings(out)
+	return out
+}
+
 func c06LeanTriples(name string, ws []c06Write) string {
 	sort.Slice(ws, func(i, j int) bool {
 		if ws[i].fn != ws[j].fn {
@@ -1489,6 +1621,7 @@ func init() {
 		}
 		sort.Strings(recvs)
 		x.defStrList("tableLookupReceivers", recvs)
+		x.defStrList("externalTableWrites", c.externalWrites())
 		sort.Strings(pm)
 		sort.Strings(pc)
 		sort.Strings(pa)
